@@ -331,7 +331,10 @@ class NetSim:
         if addr in self.servers:
             return self.servers[addr]
         if isinstance(addr, tuple) and len(addr) >= 2:
-            return self.servers.get((addr[0], addr[1]))
+            port = addr[1]
+            if isinstance(port, str) and port.isdigit():
+                port = int(port)      # getaddrinfo accepts a decimal string as service
+            return self.servers.get((addr[0], port))
         return None
 
     def begin_call(self, call_id, noreply=False):
